@@ -36,6 +36,7 @@ type gen struct {
 	next  int
 	site  string
 	cut   int // wrapper-does-not-cut evaluations
+	inTree bool
 }
 
 func (g *gen) id() int { g.next++; return g.next }
@@ -135,7 +136,18 @@ func (g *gen) robustIn(s sol, q pt, d3 bool, h float64) bool {
 		return true
 	}
 	// all 26 (2D: 8) neighbours: at a vertex of a rect decomposition the axis neighbours can all be
-	// inside while an octant is empty, and the rounding of Inverse(Apply(q)) moves diagonally
+	// inside while an octant is empty, and the rounding of Inverse(Apply(q)) moves diagonally.
+	// Several scales down to the rounding level: between two stacked / joined operands there can be a
+	// sliver (e.g. next to the tip of a polytope) that the coarse neighbours straddle.
+	for _, hh := range []float64{h, h * 1e-3, h * 1e-6, h * 4e-9} {
+		if !g.neighboursIn(s, q, d3, hh) {
+			return false
+		}
+	}
+	return true
+}
+
+func (g *gen) neighboursIn(s sol, q pt, d3 bool, h float64) bool {
 	zs := []float64{-1, 0, 1}
 	if !d3 {
 		zs = []float64{0}
@@ -151,6 +163,24 @@ func (g *gen) robustIn(s sol, q pt, d3 bool, h float64) bool {
 		}
 	}
 	return true
+}
+
+// anyNeighbourIn: some point of the 3x3(x3) stencil of width h around p is contained.
+func anyNeighbourIn(s sol, p pt, d3 bool, h float64) bool {
+	zs := []float64{-1, 0, 1}
+	if !d3 {
+		zs = []float64{0}
+	}
+	for _, dx := range []float64{-1, 0, 1} {
+		for _, dy := range []float64{-1, 0, 1} {
+			for _, dz := range zs {
+				if s.Contains(pt{p[0] + dx*h, p[1] + dy*h, p[2] + dz*h}) {
+					return true
+				}
+			}
+		}
+	}
+	return false
 }
 
 // noCut: for every point of interest q of the operand where the underlying definition says
@@ -169,6 +199,14 @@ func (g *gen) noCut(wrapper string, inner sol, innerD3 bool, outer sol, pts []pt
 		g.cut++
 		g.c.Stat("nocut_evaluations_"+wrapper, 1)
 		if !outer.Contains(p) {
+			if !g.exact {
+				// float mode: the image is computed with rounding; a genuine cut removes a neighbourhood
+				olo, ohi := outer.Min(), outer.Max()
+				if finite(olo) && finite(ohi) && anyNeighbourIn(outer, p, true, 1e-9*boxScale(olo, ohi, true)) {
+					g.c.Stat("nocut_image_on_boundary_skipped", 1)
+					continue
+				}
+			}
 			g.c.PropFail("c03:wrapper-cuts:"+wrapper, fmt.Sprintf("underlying definition contains %v (image %v) but the %s wrapper with box [%v,%v] rejects it; operand box [%v,%v]",
 				q, p, wrapper, outer.Min(), outer.Max(), lo, hi)+" "+strings.Join(desc, " "))
 			return
@@ -229,6 +267,11 @@ func (g *gen) leaf3() *node {
 			pts = append(pts, boxPts(p3(r.MinVal), p3(r.MaxVal), true, g.inward())...)
 		}
 		return &node{d3: true, tok: "rset " + tree, s3: s, pts: g.sub(pts, 30)}
+	case k == 8:
+		if n := g.polyLeaf(true); n != nil {
+			return n
+		}
+		return g.leaf3()
 	case k == 7 && !g.exact:
 		// heightMapSolid: InBounds && HigherAt; HigherAt is the recorded callback
 		mn := model2d.XY(g.num(3), g.num(3))
@@ -335,6 +378,11 @@ func (g *gen) leaf2() *node {
 			}
 		}
 		return &node{tok: "sph 2 " + fpt(lo) + " " + num(r), s2: s, pts: pts}
+	case k == 6 || k == 7:
+		if n := g.polyLeaf(false); n != nil {
+			return n
+		}
+		return g.leaf2()
 	default:
 		name, s := g.opaque2()
 		g.c.Stat("leaf_orc2_"+name, 1)
@@ -673,7 +721,7 @@ func (g *gen) solid3(depth int) *node {
 	if depth <= 0 {
 		return g.leaf3()
 	}
-	const nk = 19
+	const nk = 20
 	k := g.c.Rng.Intn(nk)
 	switch k {
 	case 0: // ForceSolidBounds
@@ -948,41 +996,17 @@ func (g *gen) solid3(depth int) *node {
 		}
 		lo, hi := p3(out.Min()), p3(out.Max())
 		return &node{d3: true, tok: t, s3: out, pts: append(boxPts(lo, hi, true, g.inward()), boxPts(clo, chi, true, g.inward())...)}
+	case 18:
+		if n := g.polyLeaf(true); n != nil {
+			return n
+		}
+		return g.leaf3()
 	default:
 		if g.exact {
-			// exact mode: convex polytope with small integer normals
-			lo, hi := g.boxLoHi(true)
-			for i := range hi {
-				hi[i] += 1
+			if n := g.polyLeaf(true); n != nil {
+				return n
 			}
-			p := model3d.NewConvexPolytopeRect(c3(lo), c3(hi))
-			for i := 0; i < g.c.Rng.Intn(3); i++ {
-				nrm := model3d.XYZ(float64(g.c.Rng.Intn(5)-2), float64(g.c.Rng.Intn(5)-2), float64(g.c.Rng.Intn(5)-2))
-				if nrm.Norm() == 0 {
-					continue
-				}
-				mid := c3(lo).Mid(c3(hi))
-				p = append(p, &model3d.LinearConstraint{Normal: nrm, Max: g.snap(nrm.Dot(mid) + g.c.Rng.Float64())})
-			}
-			var out model3d.Solid
-			res := hlib.Guard(func() string { out = p.Solid(); return "ok" })
-			if res != "ok" {
-				return g.leaf3()
-			}
-			mn, mx := p3(out.Min()), p3(out.Max())
-			for i := 0; i < 3; i++ {
-				// the mesh vertices come out of a 3x3 solve: keep the case only if they are short dyadics
-				if !finite(mn) || !finite(mx) || mn[i]*1024 != math.Round(mn[i]*1024) || mx[i]*1024 != math.Round(mx[i]*1024) {
-					g.c.Stat("polytope_box_not_dyadic_skipped", 1)
-					return g.leaf3()
-				}
-			}
-			tok := fmt.Sprintf("poly 3 %s %s %d", fpt(mn), fpt(mx), len(p))
-			for _, l := range p {
-				tok += " " + fpt(p3(l.Normal)) + " " + num(l.Max)
-			}
-			g.c.Stat("node_polytope", 1)
-			return &node{d3: true, tok: tok, s3: out, pts: boxPts(mn, mx, true, g.inward())}
+			return g.leaf3()
 		}
 		// MetaballSolid (float mode)
 		n := 1 + g.c.Rng.Intn(3)
@@ -1145,7 +1169,7 @@ func oneTree(c *hlib.Ctx, exact, d3 bool, depth int) {
 	if exact {
 		mode = "q"
 	}
-	g := &gen{c: c, exact: exact, rec: newRecorder(), site: "c03:tree-" + mode}
+	g := &gen{c: c, exact: exact, rec: newRecorder(), site: "c03:tree-" + mode, inTree: true}
 	var root *node
 	res := hlib.Guard(func() string {
 		if d3 {
